@@ -411,6 +411,10 @@ def take_snapshot(snap, main, node, block, kind):
                 collect(n['ty'])
         for _ident, tj in env:
             collect(tj)
+        # _resolve_toplevel leaves the written string as the C type of an unresolved result without one
+        for s_ in type_strings(block):
+            if s_:
+                cands.add(s_)
         ast = m.ast
         for cname in list(cands):
             while cname.endswith('*'):
@@ -634,6 +638,8 @@ def run_real(env, hooks, case, comment, want_snapshot=True):
         hooks.boundary if hooks.boundary is not None else len(recs))
     res['records'] = [{'level': w['level'], 'text': w['text'], 'positions': [list(p) for p in w['positions']]}
                       for w in recs[:bound]]
+    # messages of pass 3 and later (not compared with the model; the oracle only asks whether an annotation ADDS one)
+    res['late'] = [w['text'] for w in recs[bound:]]
     if snap is not None and snap.node is not None:
         res['split'] = snap.node.instance_parameter is not None and case['kind'] in ('function', 'method')
     return res
@@ -1135,6 +1141,13 @@ def judge(case, out, site, idx, all_sites):
                     length_targets.add(o[7:])
     is_len_target = site.pname in length_targets
     inst_names = [s.pname for s in all_sites if s.kind == 'inst']
+    # parameters that have no index in the GIR: the instance parameter and the trailing GError** of a
+    # throwing callable; a reference to one is reported in pass 3 and dropped
+    unindexed = set(inst_names)
+    _last = case['params'][-1] if case['params'] else None
+    if out.get('throws') and _last is not None and not _last.get('ellipsis') and _last['type']['base'] == 'GError' \
+            and _last['type'].get('depth') == 2 and _last['type'].get('carray') is None:
+        unindexed.add(_last['name'])
     pnames = [attrs_of(p).get('name') for p in out['params']]
     if kind == 'signal' and name in ('scope', 'closure', 'destroy'):
         return ('outside', 'callback annotations on signals')
@@ -1310,8 +1323,11 @@ def judge(case, out, site, idx, all_sites):
         checks = [('type is <array>', ty is not None and ty['tag'] == 'array')]
         if 'length' in od:
             ln = od['length']
-            if ln in inst_names:
-                return ('outside', 'length names the instance parameter (crash class)')
+            if ln in unindexed and ln not in pnames:
+                # the array itself is valid, its length reference is not: no length attribute is written
+                checks.append(('no length attribute (the length names a parameter without index)',
+                               'length' not in tyattrs))
+                return ('valid', checks)
             if ln not in pnames:
                 return ('outside', 'length names no parameter')
             checks.append(('length=%d' % pnames.index(ln), tyattrs.get('length') == str(pnames.index(ln))))
@@ -1406,8 +1422,9 @@ def judge(case, out, site, idx, all_sites):
         if len(opts) != 1:
             return ('outside', 'malformed')
         ref = opts[0]
-        if ref in inst_names:
-            return ('outside', '%s names the instance parameter (crash class)' % name)
+        if ref in unindexed and ref not in pnames:
+            # invalid reference: a warning (emitted by pass 3) and no closure/destroy attribute from it
+            return ('invalid:late', [name])
         if ref not in pnames:
             return ('outside', '%s names no parameter' % name)
         return ('valid:ref', [('%s=%d' % (name, pnames.index(ref)), a.get(name) == str(pnames.index(ref)))])
@@ -1455,29 +1472,11 @@ def scope_override_class(case, out, site, all_sites):
 
 def crash_class(case, res):
     text = res['exc'] or ''
-    kind = case['kind']
     parts = list(case['doc']) + ([dict(case['retdoc'], name='returns')] if case.get('retdoc') else [])
-    refs = []
-    for d in parts:
-        for a in d['anns']:
-            n, o = parse_ann(a)
-            if n in ('closure', 'destroy') and len(o) == 1:
-                refs.append(o[0])
-            if n == 'array':
-                refs.extend(x[7:] for x in o if x.startswith('length='))
     has_type = any(parse_ann(a)[0] == 'type' for d in parts for a in d['anns'])
-    last_is_error = bool(case['params']) and not case['params'][-1].get('ellipsis') and \
-        case['params'][-1]['type']['base'] == 'GError' and case['params'][-1]['type'].get('depth') == 2
-    if text.startswith('ValueError: Unknown argument'):
-        if kind in ('method', 'vfunc') and 'self' in refs:
-            return 'crash:reference-to-parameter-without-index'
-        if last_is_error and case['params'][-1]['name'] in refs:
-            return 'crash:reference-to-parameter-without-index'
-    if text.startswith("AttributeError: 'NoneType' object has no attribute 'endswith") and kind == 'signal' and has_type:
+    if text.startswith("AttributeError: 'NoneType' object has no attribute 'endswith") and case['kind'] == 'signal' \
+            and has_type:
         return 'crash:signal-type-override-without-ctype'
-    if text.startswith('AssertionError') and not text.startswith('AssertionError: parent not a callable') \
-            and kind == 'signal' and has_type:
-        return 'crash:signal-unknown-type'
     return 'crash:other:' + re.sub(r'[0-9]+', 'N', text)[:80]
 
 
@@ -1487,20 +1486,13 @@ def crash_class(case, res):
 # passes; any failure whose key is not listed here is a violation.
 # Repaired in /repo and no longer suppressed (their inputs stay in corpus/C01/fixed_regressions.json):
 # bare (transfer) on the instance parameter (081dd14), unknown transfer / scope words written (0c5d020),
-# Returns: (array length=p) on a signal (280bbea).
+# Returns: (array length=p) on a signal (280bbea); references to the instance / GError** parameter and
+# direction annotations on return values (af359fc); unresolvable (type) on signals (fc59d40); (destroy P)
+# over an explicit scope of P (05dfe62); (not optional) (faf246d).
 PENDING_FINDINGS = {
-    'crash:reference-to-parameter-without-index':
-        '(closure P)/(destroy P)/(array length=P) where P is the instance parameter or the trailing GError** that '
-        '_pass3_callable_throws pops: ValueError from get_parameter_index (pass 3 / the writer) instead of a warning',
     'crash:signal-type-override-without-ctype':
         '(type gint) + (nullable)/(allow-none)/(transfer) on a signal parameter whose type came from the dump (no C '
         'type): _is_pointer_type calls None.endswith',
-    'crash:signal-unknown-type':
-        '(type Unknown) on a signal parameter / return value: Type without ctype, assertion in Type.clone or '
-        'IntrospectablePass (unresolved_string)',
-    'not-optional-treated-as-not-nullable':
-        '(not optional) is implemented as (not nullable): it clears nullable="1" (also an explicit (nullable)) and does '
-        'not take optional="1" away from an (optional)/(allow-none) out parameter',
     'pointer-to-basic-alias-rejects-nullable':
         '(nullable) / (allow-none) on a pointer to an alias of a basic type (`FooInt *p`, `GQuark *p`): rejected with '
         '"only valid for pointer types" because _is_pointer_type looks at the alias target\'s own ctype',
@@ -1513,10 +1505,6 @@ PENDING_FINDINGS = {
         'an explicit (scope X) / (closure X) / (destroy X) on a callback parameter is overwritten by '
         '_pass3_callable_callbacks (later GDestroyNotify => destroy + scope notified; later gpointer *data => closure; '
         'GDestroyNotify / GAsyncReadyCallback parameter => scope async)',
-    'valid-overridden-by-destroy-reference:scope':
-        'an explicit (scope X) on callback parameter P is overwritten by "notified" when a LATER parameter carries '
-        '(destroy P) (_apply_annotations_param_callback sets destroy_param.scope unconditionally; with the two '
-        'parameters in the other order the explicit scope wins)',
 }
 # (transfer none|full) is only judged invalid on a by-value enum/flags: on a by-value struct or object the
 # oracle stays 'outside' (the transformer's own message lists struct and object types as valid sites)
@@ -1692,6 +1680,9 @@ class Evaluator(object):
                 diff = full_b - all_buckets(r2)
                 line = part_line(comment, pname)
                 warned = sum(diff.values()) >= 1 and (cont or line in diff or 'none' in diff)
+                if verdict[0] == 'invalid:late':
+                    # reported at the declaration, after the start of pass 3
+                    warned = warned or bool(PyCounter(res.get('late', ())) - PyCounter(r2.get('late', ())))
                 if not warned:
                     self.fail('invalid-no-warning:%s:%s' % (acls, skey),
                               '(%s) on %s %s [%s] is not valid there but no warning is attributed to it\n%s'
